@@ -68,6 +68,7 @@ def default_cfg(**over):
         finter=False,
         quad=('RADAU-RIGHT',),  # quadrature type per level (last entry repeating)
         node_type=('LEGENDRE',),  # node family per level
+        do_coll_update=False,  # end value by quadrature of the right-hand sides instead of copying the last node
     )
     cfg.update(over)
     return cfg
@@ -93,7 +94,7 @@ def describe(cfg, sweeper_comm=None):
         sclass = generic_implicit if cfg['sweeper'] == 'implicit' else imex_1st_order
         nodes = [M - i for i in range(L)] if (L > 1 and cfg['kind'] == 'time') else M
     quad, ntype = list(cfg.get('quad') or ('RADAU-RIGHT',)), list(cfg.get('node_type') or ('LEGENDRE',))
-    sweeper_params = {'quad_type': quad if len(quad) > 1 else quad[0], 'node_type': ntype if len(ntype) > 1 else ntype[0], 'num_nodes': nodes, 'QI': cfg['QI'], 'initial_guess': cfg['initial_guess']}
+    sweeper_params = {'quad_type': quad if len(quad) > 1 else quad[0], 'node_type': ntype if len(ntype) > 1 else ntype[0], 'num_nodes': nodes, 'QI': cfg['QI'], 'initial_guess': cfg['initial_guess'], 'do_coll_update': bool(cfg.get('do_coll_update', False))}
     if cfg['sweeper'] == 'imex':
         sweeper_params['QE'] = 'PIC'
     if sweeper_comm is not None:
